@@ -421,3 +421,25 @@ def evaluate(t, model):
     if op == 'or':
         return any(a)
     raise ValueError('evaluate: ' + op)
+
+
+def exact_mul(t, memo=None):
+    """Rewrite uf('mul', a, b) back into the real product (used to confirm a counterexample found
+    under the product abstraction)."""
+    if not isinstance(t, T):
+        return t
+    if memo is None:
+        memo = {}
+    r = memo.get(t)
+    if r is not None:
+        return r
+    if t.op == 'var':
+        r = t
+    elif t.op == 'uf' and t.args[0] == 'mul':
+        r = T('*', (exact_mul(t.args[1], memo), exact_mul(t.args[2], memo)), 'I')
+    elif t.op == 'uf':
+        r = T('uf', (t.args[0],) + tuple(exact_mul(a, memo) for a in t.args[1:]), t.sort)
+    else:
+        r = T(t.op, tuple(exact_mul(a, memo) for a in t.args), t.sort)
+    memo[t] = r
+    return r
